@@ -40,6 +40,7 @@ class Ref:
 
     def select(self, pick):
         r = Ref.__new__(Ref)
+        r.evidence = getattr(self, "evidence", None)
         r.x = pick(self.x)
         r.f = {k: (pick([[t] for t in v]) if v is not None else None) for k, v in self.f.items()}
         r.f = {k: ([row[0] for row in v] if v is not None else None) for k, v in r.f.items()}
@@ -120,6 +121,7 @@ class C16(Check):
                 s.log_evidence = sx.sym("carriedZ")
                 s.log_evidence_error = sx.sym("carriedE")
             ref = Ref(x, fields, extra)
+            ref.evidence = (z3.Real("carriedZ"), z3.Real("carriedE")) if cfg["cls"] in ("Samples", "SMCSamples") and sub == "all" else None
             cur = s
             for step, op in enumerate(seq):
                 cur, ref = self.apply(ctx, cls, cur, ref, op, step)
@@ -171,6 +173,7 @@ class C16(Check):
             out = cls.concatenate(parts)
             ref2 = ref.select(lambda rows: rows[:k] + rows[k:])
             ref2.extra = {}  # concatenate re-derives weights; checked through the fields
+            ref2.evidence = None  # what a concatenation's evidence should be is not specified
             return out, ref2
         if kind == "pickle":
             return pickle.loads(pickle.dumps(cur)), ref
@@ -185,6 +188,15 @@ class C16(Check):
                 return None, None
             r = ref
             r.extra = {}
+            if getattr(r, "evidence", None) is not None:
+                # "converting to a dictionary and back yields an equal sample set"
+                z, e = out.log_evidence, out.log_evidence_error
+                ok = z is not None and e is not None
+                good = ok and ctx.prove(z3.And(sx.term(z) == r.evidence[0], sx.term(e) == r.evidence[1]), "dict/evidence_equal")
+                if not ok:
+                    ctx.prove(False, "dict/evidence_equal")
+                if not good:
+                    r.evidence = (sx.term(z), sx.term(e)) if ok else None  # go on from what the object now holds
             return out, r
         raise core.HarnessError(f"unknown op {op}")
 
@@ -236,12 +248,12 @@ class C16(Check):
         ctx.prove(out.dtype == orig.dtype and out.x.dtype == orig.x.dtype, pre + "/dtype", detail={"dtype": repr(out.dtype)})
         if cfg["cls"] == "SMCSamples":
             ctx.prove(out.beta == orig.beta, pre + "/beta")
-        if cfg["cls"] in ("Samples", "SMCSamples") and cfg["subset"] == "all" and pre in ("select", "pickle"):
+        if getattr(ref, "evidence", None) is not None and pre in ("select", "pickle"):
             z, e = out.log_evidence, out.log_evidence_error
             ok = z is not None and e is not None
             ctx.prove(ok, "evidence_carried")
             if ok:
-                ctx.prove(z3.And(sx.term(z) == z3.Real("carriedZ"), sx.term(e) == z3.Real("carriedE")), "evidence_carried")
+                ctx.prove(z3.And(sx.term(z) == ref.evidence[0], sx.term(e) == ref.evidence[1]), "evidence_carried")
 
     # ------------------------------------------------------------------
     def to_cex(self, fl):
@@ -256,11 +268,14 @@ class C16(Check):
         has_concat = any(op[0] == "split_concat" for op in cex["cfg"]["seq"])
         if cex["cfg"]["cls"] == "SMCSamples" and has_concat and (lab.endswith("/beta") or lab == "evidence_carried"):
             return "C16-D11"
+        if cex["cfg"]["cls"] == "Samples" and lab == "dict/evidence_equal":
+            return "C16-D12"
         return None
 
     def known_finding_probes(self):
         cfg = {"name": "D11-probe", "cls": "SMCSamples", "subset": "all", "seq": [["split_concat", 1]], "N": 3, "d": 2}
-        return [("C16-D11", {"cfg": cfg, "label": "concat/beta", "env": {}})]
+        cfg2 = {"name": "D12-probe", "cls": "Samples", "subset": "all", "seq": [["dict_flat"]], "N": 3, "d": 2}
+        return [("C16-D11", {"cfg": cfg, "label": "concat/beta", "env": {}}), ("C16-D12", {"cfg": cfg2, "label": "dict/evidence_equal", "env": {}})]
 
 
 def replay_c16(cex):
@@ -323,8 +338,12 @@ def replay_c16(cex):
                 elif kind == "pickle":
                     cur = pickle.loads(pickle.dumps(cur))
                 else:
+                    before = (cur.log_evidence, cur.log_evidence_error) if hasattr(cur, "log_evidence") else None
                     cur = cls.from_dict(cur.to_dict(flat=kind == "dict_flat"))
                     extra = {}
+                    if carried and before is not None and cfg["cls"] in ("Samples", "SMCSamples") and sub == "all":
+                        if cur.log_evidence is None or float(cur.log_evidence) != float(before[0]) or float(cur.log_evidence_error) != float(before[1]):
+                            bad.append(f"dict round trip changed the attached evidence: {before[0]!r} -> {cur.log_evidence!r}")
                     carried = False
             except Exception as e:  # noqa: BLE001
                 bad.append(f"operation {op} raised {type(e).__name__}: {e}")
